@@ -33,7 +33,7 @@ class _ScalarMeta(type):
         if type.__instancecheck__(cls, x):
             return True
         base = cls.__mro__[1]
-        if isinstance(x, ndarray_impl):
+        if _is_shim(x):
             return x.ndim == 0 and issubclass(x.dtype.type, base)
         return isinstance(x, base)
 
@@ -48,7 +48,7 @@ def _mk_scalar_type(name):
 
 class _AbstractMeta(type):
     def __instancecheck__(cls, x):
-        if isinstance(x, ndarray_impl):
+        if _is_shim(x):
             return x.ndim == 0 and issubclass(x.dtype.type, cls._base)
         return isinstance(x, cls._base)
 
@@ -73,6 +73,10 @@ result_type = rnp.result_type
 can_cast = rnp.can_cast
 index_exp = rnp.index_exp
 s_ = rnp.s_
+
+
+def _is_shim(x):
+    return type(x) is ndarray_impl
 
 
 def _obj0(x):
@@ -308,7 +312,7 @@ class ndarray_impl(metaclass=_NDMeta):
         parts = (key,) if single else key
         out = []
         for p in parts:
-            if isinstance(p, ndarray_impl):
+            if _is_shim(p):
                 if p.sym:
                     if p.dtype.kind == 'b':
                         if single and for_write and p.shape == self.shape:
@@ -323,7 +327,7 @@ class ndarray_impl(metaclass=_NDMeta):
                     raise ShimUnsupported('symbolic index array in a multi-dimensional or write index')
                 t = p.typed()
                 out.append(t if t.ndim else t[()])
-            elif isinstance(p, (list, tuple)) and any(isinstance(q, ndarray_impl) for q in p):
+            elif isinstance(p, (list, tuple)) and any(_is_shim(q) for q in p):
                 out.append([int(q) for q in p])
             else:
                 out.append(p)
@@ -366,6 +370,11 @@ class ndarray_impl(metaclass=_NDMeta):
             return
         if CTX.footprint is not None:
             _log_access('w', self, k)
+        if vals.ndim == 0 or vals.size == 1:
+            sel = self.c[k]
+            if not isinstance(sel, rnp.ndarray) or (sel.ndim == 0 and self.c.ndim > 0):
+                self.c[k] = vals.reshape(-1)[0]       # single element: store the element itself, not a 0-d array object
+                return
         self.c[k] = vals
 
     # -- arithmetic ----------------------------------------------------------------------------
@@ -463,7 +472,7 @@ def _from_real(r):
 
 def _w(x):
     """Anything array-like -> shim ndarray."""
-    if isinstance(x, ndarray_impl):
+    if _is_shim(x):
         return x
     if isinstance(x, rnp.ndarray):
         return _from_real(x)
@@ -478,7 +487,7 @@ def _w(x):
 
 def _operand(x):
     """-> (carrier | python scalar, dtype | None for weak python scalars, symbolic?)."""
-    if isinstance(x, ndarray_impl):
+    if _is_shim(x):
         return x.c, x.dtype, x.sym
     if isinstance(x, rnp.ndarray):
         return x.astype(object), x.dtype, False
@@ -496,7 +505,7 @@ def _operand(x):
 
 def _real_arg(x):
     """Concrete argument for a real numpy call."""
-    if isinstance(x, ndarray_impl):
+    if _is_shim(x):
         t = x.typed()
         return t if t.ndim else t[()]
     if isinstance(x, (list, tuple)):
@@ -509,7 +518,7 @@ def _real_arg(x):
 
 
 def _any_sym(x):
-    if isinstance(x, ndarray_impl):
+    if _is_shim(x):
         return x.sym
     if isinstance(x, (list, tuple)):
         return builtins.any(_any_sym(y) for y in x)
@@ -551,7 +560,7 @@ def __getattr__(name):
 
 
 def _is_conc_tree(obj):
-    if isinstance(obj, ndarray_impl):
+    if _is_shim(obj):
         return not obj.sym
     if isinstance(obj, (list, tuple)):
         return builtins.all(_is_conc_tree(o) for o in obj)
@@ -560,7 +569,7 @@ def _is_conc_tree(obj):
 
 def _tree_carrier(obj):
     """nested lists / shim arrays -> (object carrier, [dtypes...])."""
-    if isinstance(obj, ndarray_impl):
+    if _is_shim(obj):
         return obj.c, [obj.dtype]
     if isinstance(obj, rnp.ndarray):
         return obj.astype(object), [obj.dtype]
@@ -583,7 +592,7 @@ def _tree_carrier(obj):
 
 
 def array(obj, dtype=None, copy=True, order=None, ndmin=0, **kw):
-    if isinstance(obj, ndarray_impl):
+    if _is_shim(obj):
         dt = rnp.dtype(dtype) if dtype is not None else obj.dtype
         r = obj.astype(dt) if dt != obj.dtype else (obj.copy() if copy else obj)
     elif _is_conc_tree(obj):
@@ -609,7 +618,7 @@ def array(obj, dtype=None, copy=True, order=None, ndmin=0, **kw):
 
 
 def asarray(obj, dtype=None, **kw):
-    if isinstance(obj, ndarray_impl) and (dtype is None or rnp.dtype(dtype) == obj.dtype):
+    if _is_shim(obj) and (dtype is None or rnp.dtype(dtype) == obj.dtype):
         return obj
     return array(obj, dtype=dtype, copy=False)
 
@@ -631,7 +640,7 @@ def empty(shape, dtype=float, order='C', **kw):
 
 
 def full(shape, fill_value, dtype=None, **kw):
-    if isinstance(fill_value, ndarray_impl) and fill_value.sym:
+    if _is_shim(fill_value) and fill_value.sym:
         r = zeros(shape, dtype or fill_value.dtype)
         r[...] = fill_value
         return r
@@ -988,14 +997,24 @@ def _fold(f, c, axes, keepdims, empty_value=None):
 
 def _reduce_generic(name, a, axis, f, keepdims=False, dtype=None, pre=None, empty_value=None, **kw):
     a = _w(a)
-    if not a.sym:
+    where_ = kw.pop('where', True)
+    has_init = 'initial' in kw
+    initial = kw.pop('initial', None)
+    kw.pop('out', None)
+    if kw:
+        raise ShimUnsupported(f'numpy.{name}: unsupported keyword arguments {sorted(kw)}')
+    wsym = _is_shim(where_) and where_.sym
+    if not a.sym and not wsym and not _any_sym([initial]):
         with rnp.errstate(all='ignore'):
             k = dict(axis=axis)
             if keepdims:
                 k['keepdims'] = True
             if dtype is not None:
                 k['dtype'] = rnp.dtype(dtype)
-            k.update(kw)
+            if where_ is not True:
+                k['where'] = _real_arg(where_)
+            if has_init:
+                k['initial'] = _real_arg(initial)
             r = getattr(rnp, name)(a.typed(), **k)
         return _from_real(r)
     with rnp.errstate(all='ignore'):
@@ -1007,11 +1026,38 @@ def _reduce_generic(name, a, axis, f, keepdims=False, dtype=None, pre=None, empt
     c = a.c
     if pre is not None:
         c = _map1(lambda x: pre(x, src, rdt), c)
-    r = _fold(lambda x, y: f(x, y, rdt), c, _axes(axis, a.ndim), keepdims, empty_value)
+    skipping = False
+    if where_ is not True:
+        m = _w(where_)
+        mask = _concretize_mask(m) if m.sym else m.typed().astype(builtins.bool)
+        mask = rnp.broadcast_to(mask, c.shape)
+        c = c.copy()
+        c[~mask] = _SKIP
+        skipping = True
+        if not has_init and empty_value is None:
+            raise ValueError('reduction operation does not have an identity, so to use a where mask one has to specify \'initial\'')
+
+    def ff(x, y):
+        if x is _SKIP:
+            return y
+        if y is _SKIP:
+            return x
+        return f(x, y, rdt)
+    r = _fold(ff if skipping else (lambda x, y: f(x, y, rdt)), c, _axes(axis, a.ndim), keepdims, empty_value)
+    if has_init or skipping:
+        ini = E.cast(initial, None, rdt) if has_init and not _is_shim(initial) else (initial._single() if has_init else empty_value)
+        r = _map1(lambda x: ini if x is _SKIP else (f(ini, x, rdt) if has_init else x), r)
     out = ndarray_impl(r, rdt)
     if out.ndim == 0:
         return out._scalar(out.c[()])
     return out
+
+
+class _Skip:
+    pass
+
+
+_SKIP = _Skip()
 
 
 def _sum_pre(x, src, rdt):
@@ -1021,7 +1067,7 @@ def _sum_pre(x, src, rdt):
 
 
 def sum(a, axis=None, dtype=None, keepdims=False, **kw):  # noqa: A001
-    return _reduce_generic('sum', a, axis, lambda x, y, d: E.elem_binop('add', x, y, d), keepdims, dtype, pre=_sum_pre, empty_value=0)
+    return _reduce_generic('sum', a, axis, lambda x, y, d: E.elem_binop('add', x, y, d), keepdims, dtype, pre=_sum_pre, empty_value=0, **kw)
 
 
 def _nan_to(v):
@@ -1033,7 +1079,7 @@ def _nan_to(v):
 
 
 def nansum(a, axis=None, dtype=None, keepdims=False, **kw):
-    return _reduce_generic('nansum', a, axis, lambda x, y, d: E.elem_binop('add', x, y, d), keepdims, dtype, pre=_nan_to(0), empty_value=0)
+    return _reduce_generic('nansum', a, axis, lambda x, y, d: E.elem_binop('add', x, y, d), keepdims, dtype, pre=_nan_to(0), empty_value=0, **kw)
 
 
 def _mx(x, y, d, gt='gt'):
@@ -1045,26 +1091,22 @@ def _mx(x, y, d, gt='gt'):
         return x if ((x > y) if gt == 'gt' else (x < y)) or x == y else y
     if (E.is_special(x) and x != x) or (E.is_special(y) and y != y):
         return math.nan
+    for u, v in ((x, y), (y, x)):
+        if E.is_special(u):      # +-inf against a finite symbolic value
+            return u if ((u > 0) == (gt == 'gt')) else v
     c = E.elem_binop('ge' if gt == 'gt' else 'le', x, y, d)
     return E.ite(c, x, y, d)
 
 
 def max(a, axis=None, keepdims=False, **kw):  # noqa: A001
-    return _reduce_generic('max', a, axis, lambda x, y, d: _mx(x, y, d), keepdims)
+    return _reduce_generic('max', a, axis, lambda x, y, d: _mx(x, y, d), keepdims, **kw)
 
 
 def min(a, axis=None, keepdims=False, **kw):  # noqa: A001
-    return _reduce_generic('min', a, axis, lambda x, y, d: _mx(x, y, d, 'lt'), keepdims)
+    return _reduce_generic('min', a, axis, lambda x, y, d: _mx(x, y, d, 'lt'), keepdims, **kw)
 
 
 amax, amin = max, min
-
-
-class _Skip:
-    pass
-
-
-_SKIP = _Skip()
 
 
 def _nanfold(gt):
@@ -1087,14 +1129,14 @@ def _nanmm(name, gt, a, axis, keepdims):
                 return _from_real(getattr(rnp, name)(a.typed(), axis=axis, **({'keepdims': True} if keepdims else {})))
     pre = lambda x, s, r: _SKIP if (E.is_special(x) and x != x) else E.cast(x, s, r)  # noqa: E731
     r = _reduce_generic(name, a, axis, _nanfold(gt), keepdims, pre=pre)
-    rw = _w(r) if not isinstance(r, ndarray_impl) else r
+    rw = _w(r) if not _is_shim(r) else r
     c = _map1(lambda x: math.nan if x is _SKIP else x, rw.c)
     out = ndarray_impl(c, rw.dtype)
     return out if out.ndim else out._scalar(out.c[()])
 
 
-def nanmax(a, axis=None, keepdims=False, **kw): return _nanmm('nanmax', 'gt', a, axis, keepdims)
-def nanmin(a, axis=None, keepdims=False, **kw): return _nanmm('nanmin', 'lt', a, axis, keepdims)
+def nanmax(a, axis=None, keepdims=False, out=None): return _nanmm('nanmax', 'gt', a, axis, keepdims)
+def nanmin(a, axis=None, keepdims=False, out=None): return _nanmm('nanmin', 'lt', a, axis, keepdims)
 
 
 def _count(a, axis, keepdims=False):
@@ -1121,8 +1163,8 @@ def mean(a, axis=None, dtype=None, keepdims=False, **kw):
         rdt = rnp.mean(rnp.zeros((1,) * builtins.max(a.ndim, 1), a.dtype), **({'dtype': rnp.dtype(dtype)} if dtype is not None else {})).dtype
     s = sum(a.astype(rdt), axis=axis, keepdims=keepdims)
     r = _binop('truediv', _w(s), _count(a, axis))
-    r = r.astype(rdt) if isinstance(r, ndarray_impl) and r.dtype != rdt else r
-    return r if not isinstance(r, ndarray_impl) or r.ndim else r._scalar(r.c[()])
+    r = r.astype(rdt) if _is_shim(r) and r.dtype != rdt else r
+    return r if not _is_shim(r) or r.ndim else r._scalar(r.c[()])
 
 
 def nanmean(a, axis=None, dtype=None, keepdims=False, **kw):
@@ -1363,7 +1405,7 @@ def reshape(a, shape, **kw):
 def take(a, indices, axis=None, **kw):
     a = _w(a)
     idx = _w(indices) if not isinstance(indices, (int, rnp.integer)) else indices
-    if isinstance(idx, ndarray_impl) and idx.sym:
+    if _is_shim(idx) and idx.sym:
         if axis is None and a.ndim == 1:
             return _lookup(a, idx)
         raise ShimUnsupported('take with symbolic indices on n-d array')
@@ -1690,7 +1732,7 @@ def terms(a):
 
 
 def shim_int(x=0, *a):
-    if isinstance(x, ndarray_impl) and x.sym:
+    if _is_shim(x) and x.sym:
         e0 = x._single()
         if z3.is_arith(e0) and e0.is_real():
             return ndarray_impl(_obj0(E.trunc_int(e0)), rnp.dtype('int64'))
